@@ -77,11 +77,12 @@ def guarded_case(case: Any, fn: Any, *args: Any, seconds: float = 0.0, **kwargs:
 
 
 class Chooser:
-    __slots__ = ('prefix', 'expect', 'log')
+    __slots__ = ('prefix', 'expect', 'log', 'keys')
 
-    def __init__(self, prefix: Sequence[int] = (), expect: Sequence[Any] = ()) -> None:
+    def __init__(self, prefix: Sequence[int] = (), expect: Sequence[Any] = (), keys: Optional[list] = None) -> None:
         self.prefix = prefix
         self.expect = expect
+        self.keys = keys  # a list: the driver appends the canonical key of the world at every choice point
         self.log: List[Tuple[int, List[Tuple[Any, str]]]] = []
 
     def choose(self, options: List[Tuple[Any, str]]) -> int:
@@ -356,3 +357,118 @@ def guarded_part(fn: Callable[[], Dict[str, Any]], seconds: float, case: Dict[st
                 'violations': [{'clause': 'hang', 'features': dict(case), 'case': dict(case),
                                 'detail': f'this part of the check did not finish within {seconds}s (unbounded loop?)\n{hang}'}]}
 
+
+
+# ---------------------------------------------------------------------------------------------------------------------
+# Stateful closure search (DESIGN.md 2.2): unbounded number of deviations, canonical-state dedup
+
+
+def closure(run: Callable[[Chooser], ExecResult], max_states: int = 50000, deadline: Optional[float] = None,
+            on_result: Optional[Callable[[Chooser, ExecResult], None]] = None) -> Dict[str, Any]:
+    """Breadth-first search over choice histories in which *every* alternative at *every* choice point is taken (no
+    deviation budget); a history is expanded only if the canonical key of the world it reaches was not seen before.
+    Every history that is run is a complete execution of the implementation (prefix, then defaults to the end) and is
+    judged by the oracle like any other.  Returns the set of keys, the number of executions and whether a cap was hit."""
+    from collections import deque
+    seen: set = set()
+    frontier: Any = deque([((), ())])
+    n_exec = 0
+    edges = 0
+    capped = False
+    depth = 0
+    while frontier:
+        if (deadline is not None and time.time() > deadline) or len(seen) > max_states:
+            capped = True
+            break
+        prefix, expect = frontier.popleft()
+        ch = Chooser(prefix, expect, keys=[])
+        res = guarded(run, ch)
+        n_exec += 1
+        if on_result is not None:
+            on_result(ch, res)
+        chosen, labels = ch.choices, ch.labels
+        for i in range(len(prefix), min(len(ch.log), len(ch.keys))):
+            k = ch.keys[i]
+            if k in seen:
+                break
+            seen.add(k)
+            depth = max(depth, i)
+            opts = ch.log[i][1]
+            for alt in range(1, len(opts)):
+                edges += 1
+                frontier.append((tuple(chosen[:i]) + (alt,), tuple(labels[:i]) + (opts[alt][0],)))
+    return {'executions': n_exec, 'states': seen, 'edges': edges, 'capped': capped, 'max_depth': depth,
+            'frontier_left': len(frontier)}
+
+
+def _closure_unit(args: Tuple[Any, int, Optional[float], Dict[str, int]]) -> Tuple[Aggregate, Dict[str, Any]]:
+    unit, max_states, deadline, cross_budget = args
+    prop = _WORKER['prop']
+    agg = Aggregate()
+    info: Dict[str, Any] = {'unit': unit, 'states': 0, 'executions': 0, 'capped': False, 'cross_missing': 0,
+                            'cross_points': 0, 'max_depth': 0}
+    try:
+        run = prop.make_run(unit)
+
+        def on_result(ch: Chooser, res: ExecResult) -> None:
+            agg.add(unit, ch, res)
+
+        out = closure(run, max_states=max_states, deadline=deadline, on_result=on_result)
+        info.update(states=len(out['states']), executions=out['executions'], capped=out['capped'],
+                    max_depth=out['max_depth'], edges=out['edges'])
+        if out['capped']:
+            agg.capped += 1
+            agg.extra['closure_capped_units'] += 1
+        elif cross_budget:
+            # soundness cross-check of the canonical key: every world the budgeted stateless search visits must be in
+            # the closure (it explores a superset of histories; a miss means the key merged states with different futures)
+            seen = out['states']
+            stack: List[Tuple[Tuple[int, ...], Tuple[Any, ...]]] = [((), ())]
+            while stack:
+                prefix, expect = stack.pop()
+                ch = Chooser(prefix, expect, keys=[])
+                guarded(run, ch)
+                for k in ch.keys:
+                    info['cross_points'] += 1
+                    if k not in seen:
+                        info['cross_missing'] += 1
+                used: Counter = Counter()
+                chosen, labels = ch.choices, ch.labels
+                for i, (c, opts) in enumerate(ch.log):
+                    if i >= len(prefix):
+                        for alt in range(1, len(opts)):
+                            cost = opts[alt][1]
+                            if cost and used[cost] + 1 > cross_budget.get(cost, 0):
+                                continue
+                            stack.append((tuple(chosen[:i]) + (alt,), tuple(labels[:i]) + (opts[alt][0],)))
+                    if opts[c][1]:
+                        used[opts[c][1]] += 1
+    except Nondeterminism as exc:
+        agg.errors.append(f'NONDETERMINISM unit={unit!r}: {exc}')
+    except BaseException as exc:  # noqa: BLE001
+        agg.errors.append(f'ERROR unit={unit!r}: {type(exc).__name__}: {exc}\n{traceback.format_exc()}')
+    return agg, info
+
+
+def closure_units(factory: Callable[..., Any], fargs: tuple, units: Sequence[Any], workers: Optional[int] = None,
+                  max_states: int = 50000, deadline: Optional[float] = None,
+                  cross_budget: Optional[Dict[str, int]] = None) -> Tuple[Aggregate, List[Dict[str, Any]]]:
+    """Closure search of every unit (one worker per unit; the visited set is per unit)."""
+    workers = workers or min(16, os.cpu_count() or 1)
+    total = Aggregate()
+    infos: List[Dict[str, Any]] = []
+    jobs = [(u, max_states, deadline, cross_budget or {}) for u in units]
+    if workers <= 1 or len(jobs) <= 1:
+        _WORKER['prop'] = factory(*fargs)
+        for job in jobs:
+            agg, info = _closure_unit(job)
+            total.merge(agg)
+            infos.append(info)
+        return total, infos
+    ctx = mp.get_context('fork')
+    with ctx.Pool(workers, initializer=_init_worker, initargs=(factory, fargs)) as pool:
+        for agg, info in pool.imap_unordered(_closure_unit, jobs, chunksize=1):
+            total.merge(agg)
+            infos.append(info)
+    infos.sort(key=lambda i: repr(i['unit']))
+    return total, infos
